@@ -218,3 +218,10 @@ def replays(failed):
     yield ("parameters in order", "fn f(a, b) {\n    print(a)\n    print(b)\n}\nf(1, 2)\n", _expect("1\n2\n"))
     yield ("this follows the access path", "o := {\"f\": fn() {\n    return this.x\n}, \"x\": 7}\nprint(o.f())\n", _expect("7\n"))
     yield ("calling a non-function", "x := 1\nx()\n", _expect(err_sub="can't call"))
+    yield ("too many arguments", "fn f(a, b) {\n}\nf(1, 2, 3)\n", _expect(err_sub="expected 2 arguments, got 3"))
+    yield ("the rest parameter is a fresh list of exactly the surplus", "fn f(a, ..r) {\n    return r\n}\nprint(f(1) == [])\nprint(f(1, 2, 3) == [2, 3])\n", _expect("true\ntrue\n"))
+    yield ("spread arguments behave like listed arguments", "fn f(a, b) {\n    return a - b\n}\nxs := [5, 3]\nprint(f(xs..))\nprint(f(5, [3]..))\n", _expect("2\n2\n"))
+    yield ("a returned method keeps its object as this", "o := {\"n\": 4, \"f\": fn() {\n    return this.n\n}}\nfn get() {\n    return o.f\n}\ng := get()\nprint(g())\n", _expect("4\n"))
+    yield ("a plain function has no this of its own", "fn helper() {\n    return this\n}\no := {\"m\": fn() {\n    return helper()\n}}\no.m()\n", _expect(err_sub="'this' is not defined"))
+    yield ("assigning to a parameter does not affect the caller", "fn f(p) {\n    p = 2\n    return p\n}\nx := 1\nprint(f(x))\nprint(x)\n", _expect("2\n1\n"))
+    yield ("arguments are evaluated once, left to right", "fn t(x) {\n    print(x)\n    return x\n}\nfn f(a, b) {\n}\nf(t(1), t(2))\n", _expect("1\n2\n"))
